@@ -13,6 +13,7 @@ CONSTANTS
   MaxSpur = 0
   Endings = {"eof", "resume"}
   SeiSet = {"zero", "finite", "never"}
+  RecordSched = FALSE
   Dev = {}
 VIEW view
 CONSTRAINT Proviso
